@@ -333,8 +333,19 @@ def check_and_load_args(args, parser):
         parser.print_usage()
         exit(-1)
 
+    if not args.resume:
+        remove_previous_run_locks(args)
     save_params(args)
     return args
+
+
+def remove_previous_run_locks(args):
+    # a new run in a folder that holds the intermediate files of an earlier one: once the parameters of the new run are saved,
+    # --resume must not take the earlier run's progress marks for the progress of this run
+    for sample in args.input_data.samples:
+        for mask in ["*_lock", "*_collected", "*_processed"]:
+            for lock_file in glob.glob(os.path.join(glob.escape(sample.aux_dir), mask)):
+                os.remove(lock_file)
 
 
 def load_previous_run(args):
